@@ -22,13 +22,13 @@ Proof. vm_compute. split; reflexivity. Qed.
 From Coq Require Import Sorting.Sorted.
 From CC Require Import Model.LineMapSpec Proofs.LineMapFacts.
 
-(** exactly one table entry per output line, for every run whose files end with a newline
-    (hypotheses found by the proof; each has a refuting Example in Proofs/LineMapFacts.v) *)
+(** exactly one table entry per output line, for every run whose MAIN file ends with a newline
+    (included files are closed by the preprocessor itself since the repair; the remaining
+    hypotheses each have a refuting Example in Proofs/LineMapFacts.v) *)
 Theorem C06_one_entry_per_line : forall fs fname defs lines p
   (Hdefs : macros_single_line defs)
   (Hsingle : inputs_single_line lines fs)
   (Hterm : physical_lines_terminated lines fs)
-  (Hincl : included_files_closed fs)
   (Hmain : file_closed lines)
   (Hrun : run_cpp fs fname defs lines = POk p),
   entries_match_lines p /\
@@ -48,7 +48,6 @@ Theorem C06_lookup_finds_an_origin : forall fs fname defs lines p
   (Hdefs : macros_single_line defs)
   (Hsingle : inputs_single_line lines fs)
   (Hterm : physical_lines_terminated lines fs)
-  (Hincl : included_files_closed fs)
   (Hmain : file_closed lines)
   (Hrun : run_cpp fs fname defs lines = POk p),
   exists ls,
